@@ -40,6 +40,7 @@ mod c10raw;
 mod anynum;
 mod keys;
 mod c14num;
+mod c02;
 
 fn main() {
     let args: Vec<String> = std::env::args().collect();
@@ -141,6 +142,7 @@ fn main() {
     // object-key position: escaping of char / String keys (C05), integers of every width as keys and values (C06)
     if prop == "C05" { keys::run_esck(&mut sink, thorough, seed); }
     if prop == "C06" { keys::run_ikey(&mut sink, thorough, seed); }
+    if prop == "C02" { c02::run(&mut sink, thorough, seed); }
     sink.finish(stats);
 }
 
@@ -195,6 +197,7 @@ fn replay(sink: &mut common::Sink, toks: &[&str]) {
         "rsa" => readers::replay(sink, toks),
         "anynum" => anynum::replay(sink, toks),
         "esck" | "ikey" | "rsk" => keys::replay(sink, toks),
+        "hist32" => c02::replay(sink, toks),
         _ => eprintln!("cannot replay op {}", toks[0]),
     }
 }
